@@ -17,8 +17,8 @@ def run(r):
         rnd = [(400, dict(maxlen=5, named=2)), (300, dict(maxlen=5, named=0, seed_off=1)), (200, dict(maxlen=4, named=1, base=0, seed_off=2))]
     else:
         fams = [("CAT", 3, AB, 1, [0], {}), ("F1", 3, AB, 48, [(s + 13) % 48], {}), ("NM", 3, AB, 24, [(s + 5) % 24], {"nameall": True}),
-                ("HID2", 3, [97, 98, 99, 100], 12, [(s + 5) % 12], {}), ("SNG", 3, AB, 2, [(s + 1) % 2], {})]
-        rnd = [(100, dict(maxlen=5, named=2))]
+                ("HID2", 3, [97, 98, 99, 100], 12, [(s + 5) % 12], {}), ("SNG", 3, AB, 2, [(s + 1) % 2], {}), ("OPTLR", 3, AB, 2, [(s + 1) % 2], {})]
+        rnd = [(100, dict(maxlen=5, named=2)), (60, dict(maxlen=4, named=2, base=0, seed_off=3))]
     parsefam.run_plan(r, {"props": ["C04"], "families": fams, "random": rnd})
     r.rule = ("for every explored (grammar, input): parsley.Parse and parsley.Evaluate (an interpreter bound to every sequence) on fresh contexts; "
               "TLC judges node xor error, value xor error, no panic, success <=> Derivation derives the whole input, span = whole file; "
